@@ -166,6 +166,9 @@ func directedC12(c *ctx) {
 			{Kind: "CO", Flag: mask%3 != 0},
 		}
 		if mask%4 != 0 {
+			if mask%8 == 1 {
+				sb = nil // RequireSandboxOnIFrame() with no values: the strictest setting
+			}
 			ops = append(ops, &bmx.Op{Kind: "SB", Names: sb})
 		}
 		pid, pol := c.policy(ops)
@@ -234,6 +237,12 @@ func directedC03(c *ctx) {
 				}
 				u = strings.NewReplacer("\"", "&quot;").Replace(u)
 				c.san(pid, pol, []byte("<"+p[0]+" "+p[1]+"=\""+u+"\" id=x>"))
+				if k%3 == 0 {
+					// the same URL attribute repeated on one tag: a harmless value first
+					good := bmx.Pick(c.r, []string{"http://example.com/", "/rel", "https://a.b/c", "mailto:x@y.z", "#f"})
+					c.san(pid, pol, []byte("<"+p[0]+" "+p[1]+"=\""+good+"\" "+p[1]+"=\""+u+"\">"))
+					c.san(pid, pol, []byte("<"+p[0]+" "+p[1]+"=\""+u+"\" id=y "+p[1]+"=\""+good+"\" "+p[1]+"=\""+u+"\">"))
+				}
 			}
 		}
 	}
@@ -258,4 +267,101 @@ func directedC07(c *ctx) {
 	for k := 0; k < c.n/4; k++ {
 		c.san(pid, pol, g.Conforming(pol, 1+c.r.Intn(12)))
 	}
+}
+
+// C02: every combination of rule sources for one attribute (explicit element, two
+// overlapping element patterns, global), each absent / with a value pattern / without
+func directedC02(c *ctx) {
+	res := []string{`^a+$`, `^b+$`, `^c+$`, `^d+$`}
+	vals := []string{"aaa", "bbb", "ccc", "ddd", "zzz", "", "x\" onmouseover=\"alert(1)"}
+	for mask := 0; mask < 81; mask++ {
+		for _, explicit := range []bool{false, true} {
+			p1, p2 := bmx.NewRE(`^my-`), bmx.NewRE(`-x$`)
+			ops := []*bmx.Op{{Kind: "AEM", Re: p1}}
+			if explicit {
+				ops = append(ops, &bmx.Op{Kind: "AE", Names: []string{"my-x"}})
+			}
+			m := mask
+			for src := 0; src < 4; src++ {
+				st := m % 3
+				m /= 3
+				if st == 0 {
+					continue
+				}
+				o := &bmx.Op{Kind: "AA", Names: []string{"class"}}
+				if st == 1 {
+					o.Re = bmx.NewRE(res[src])
+				}
+				switch src {
+				case 0:
+					o.Scope, o.ScopeEl = "E", []string{"my-x"}
+				case 1:
+					o.Scope, o.ScopeRe = "M", p1
+				case 2:
+					o.Scope, o.ScopeRe = "M", p2
+				default:
+					o.Scope = "G"
+				}
+				ops = append(ops, o)
+			}
+			if mask%5 == 0 {
+				ops = append(ops, &bmx.Op{Kind: "AA", Empty: true, Scope: "M", ScopeRe: p2})
+			}
+			pid, pol := c.policy(ops)
+			for _, v := range vals {
+				c.san(pid, pol, []byte("<my-x class=\""+v+"\">t</my-x><my-y class=\""+v+"\">u</my-y>"))
+			}
+			c.san(pid, pol, []byte("<my-x class>t</my-x><my-x>u</my-x><my-x class=aaa class=zzz id=1>v</my-x>"))
+		}
+	}
+	families["san"](c)
+}
+
+// C10: every combination of style-rule sources (element, element pattern, global) for an
+// element that is declared by name or only matched by a pattern
+func directedC10(c *ctx) {
+	styles := []string{"color: red", "color: blue", "color: red; position: fixed", "position: fixed; color: red", "COLOR: RED",
+		"color: expression(alert(1))", "background: url(javascript:alert(1)); color: red", "color: \\72 ed", "-webkit-color: red;;", "color:red;width:1px", "color"}
+	for mask := 0; mask < 27; mask++ {
+		for variant := 0; variant < 4; variant++ {
+			pat := bmx.NewRE(`^(td|my-x)$`)
+			var ops []*bmx.Op
+			el := "td"
+			if variant >= 2 {
+				el = "my-x"
+			}
+			if variant%2 == 0 {
+				// declared by name, style allowed as an ordinary attribute (the README's pattern)
+				ops = append(ops, &bmx.Op{Kind: "AA", Names: []string{"style", "colspan"}, Scope: "E", ScopeEl: []string{el}})
+			} else {
+				ops = append(ops, &bmx.Op{Kind: "AA", Names: []string{"style", "colspan"}, Scope: "M", ScopeRe: pat})
+			}
+			m := mask
+			for src := 0; src < 3; src++ {
+				st := m % 3
+				m /= 3
+				if st == 0 {
+					continue
+				}
+				o := &bmx.Op{Kind: "AS", Names: []string{"color", "width"}}
+				if st == 1 {
+					o.Enum = []string{"red", "1px"}
+				}
+				switch src {
+				case 0:
+					o.Scope, o.ScopeEl = "E", []string{el}
+				case 1:
+					o.Scope, o.ScopeRe = "M", pat
+				default:
+					o.Scope = "G"
+				}
+				ops = append(ops, o)
+			}
+			pid, pol := c.policy(ops)
+			for _, st := range styles {
+				c.san(pid, pol, []byte("<"+el+" style=\""+st+"\" colspan=2>t</"+el+"><"+el+" style=\""+st+"\">u</"+el+">"))
+			}
+		}
+	}
+	families["san"](c)
 }
